@@ -319,7 +319,7 @@ impl Hist for C09 {
 }
 
 fn configs(tier: Tier) -> Vec<(C09, usize)> {
-    let (d, ds) = if tier == Tier::Quick { (4, 5) } else { (5, 7) };
+    let (d, ds) = if tier == Tier::Quick { (4, 5) } else { (6, 8) };
     let mut v = vec![(C09 { steady: None, no_len: false }, d), (C09 { steady: None, no_len: true }, d - 1)];
     for r in [1u64, 1_000, 1_000_000, 1_000_000_000_000] {
         v.push((C09 { steady: Some(r), no_len: false }, ds));
@@ -334,7 +334,7 @@ pub fn run(tier: Tier, shard: Shard, stats: &mut Stats) {
 }
 
 pub fn meta(tier: Tier) -> Meta {
-    let (d, ds) = if tier == Tier::Quick { (4, 5) } else { (5, 7) };
+    let (d, ds) = if tier == Tier::Quick { (4, 5) } else { (6, 8) };
     Meta {
         level: "model_checking",
         rule: format!("virtual-time histories on a hidden bar of length 1e18: every sequence of <= {d} events from (gap in {{1 ms,7 ms,1 s,15 s,1 h,1 d}}) x inc({{1,1e3,1e9}}) plus reset_eta/reset/reset_elapsed/backwards seek/finish, and every steady-rate gap sequence of <= {ds} updates for rates 1,1e3,1e6,1e12 per second; after every history per_sec/eta/duration/elapsed are read at 8 instants from +1 ns to +30 d with the clock frozen; laws L1-L6 incl. a differential fresh-bar oracle for forgetfulness; a state is the vector of reported rates; non-trivial = at least one progress sample since the last reset"),
